@@ -9,6 +9,8 @@ import sys
 import tempfile
 import time
 
+from vmon.gens import THOROUGH_SCALE as TS
+
 PID = "C20"
 RULE = ("history cases: a sequence of 8-40 calls drawn from a catalogue of ~95 call specifications covering every module (search, "
         "statistics, metrics, clustering, entropy, io, util, plotting; valid, invalid-argument and seeded randomised calls) is executed in "
@@ -128,24 +130,34 @@ def run_spec(ctx, name, fault=None, record_args=True):
     from vmon import canon, specs
     from vmon.lines import Failpoint, InjectedFault
     s = specs.SPECS[name]
-    args, kwargs = s.build()
-    before = canon.fp_args(args, kwargs) if record_args else None
+    built = s.build()
+    args, kwargs = built[0], built[1]
+    method, margs, mkwargs = (built[2], built[3], built[4]) if len(built) == 5 else (None, (), {})
+    watched_args = tuple(args) + tuple(margs)
+    watched_kwargs = dict(kwargs, **{f"method:{k}": v for k, v in mkwargs.items()})
+    before = canon.fp_args(watched_args, watched_kwargs) if record_args else None
     fn = s.target()
     if s.np_seed is not None:
         np.random.seed(s.np_seed)
+
+    def invoke():
+        out0 = ctx.call(fn, *args, **kwargs)
+        if method is None or not out0.ok:
+            return out0
+        return ctx.call(getattr(out0.value, method), *margs, **mkwargs)      # second stage: method of the constructed object
     injected = False
     if fault:
         fp = Failpoint(fault)
         try:
             with fp:
-                out = ctx.call(fn, *args, **kwargs)
+                out = invoke()
         except InjectedFault:
             out = None
         # the fault counts as injected whenever it fired - even if pyrepseq swallowed it (bare except) and
         # surfaced something else, or carried on: such a call was disturbed and its value is not compared.
         injected = fp.fired_at is not None or out is None
     else:
-        out = ctx.call(fn, *args, **kwargs)
+        out = invoke()
     if injected:
         value = "abandoned"
     elif out.ok:
@@ -156,14 +168,14 @@ def run_spec(ctx, name, fault=None, record_args=True):
     else:
         value = f"raised:{type(out.exc).__name__}"
     if record_args:
-        after = canon.fp_args(args, kwargs)
+        after = canon.fp_args(watched_args, watched_kwargs)
         ctx.count("argument_fingerprints_compared", len(after))
         if after != before:
             import inspect
             which = [i for i, (a, b) in enumerate(zip(before, after)) if a != b]
             names = []
             for i in which:
-                names.append(f"arg{i}" if i < len(args) else str(before[i][0]))
+                names.append(f"arg{i}" if i < len(watched_args) else str(before[i][0]))
             ctx.violation(f"argument-mutated:{s.func}:{','.join(names)}" + (":after-fault" if injected else ""),
                           f"{s.func} modified the argument(s) {names} it was given (spec {name})", after, before)
     if s.fig:
@@ -292,6 +304,9 @@ def k_history(ctx, steps):
     ctx.nontriv(["H", names, [s.get("fault") for s in steps]])
     for a, b in zip(names, names[1:]):
         ctx.nontriv(["pair", a, b])
+        ctx.distinct("adjacent_ordered_spec_pairs", [a, b])
+    for a in names:
+        ctx.distinct("specifications_executed", a)
     ctx.sample("history", {"steps": steps[:10], "n_steps": len(steps)})
     fd, path = tempfile.mkstemp(prefix="vmon-c20-", suffix=".json")
     os.close(fd)
@@ -370,7 +385,7 @@ def generate(tier, seed):
         block = order[i:i + 12]
         yield "history", {"steps": [{"spec": n} for n in block] + [{"spec": n} for n in reversed(block)]}, True
     # failpoint runs: call abandoned at a random line event inside pyrepseq, then continue
-    for i in range(60 if thorough else 10):
+    for i in range(60 * TS if thorough else 10):
         block = rng.sample(names, 8)
         steps = []
         for n in block:
@@ -393,7 +408,7 @@ def generate(tier, seed):
                 cur = []
         if cur:
             yield "history", {"steps": [{"spec": n} for n in cur]}, True
-    for i in range(400 if thorough else 24):
+    for i in range(400 * TS if thorough else 24):
         L = rng.randint(10, 40 if thorough else 24)
         steps = [{"spec": rng.choice(names)} for _ in range(L)]
         for st in steps:
